@@ -12,9 +12,15 @@ import (
 // Pool is sync.Pool under the simulator. sync.Pool promises nothing about which
 // entry Get returns nor that a Put entry is kept, so inside a simulation the
 // hand-out order, misses (New although entries are free) and drops are choices.
-// On Put the entry's byte buffer (whole capacity) is poisoned: by contract its
-// contents are dead once it is back in the pool. The poison is verified on the
-// next Get, so a write-after-put or a second owner is a deterministic event.
+// On Put the *unused capacity* of the entry's byte buffer (what lies beyond its
+// length) is poisoned: nobody may own that part while the entry is in the pool. The
+// poison is verified on the next Get, so an append by the previous owner after Put, or
+// a second owner, is a deterministic event. The bytes within the length are left
+// alone: whether they are dead is the business of the code that uses the pool (an
+// arena that parks partly used blocks in a pool keeps handing out slices of them; an
+// earlier version poisoned the whole capacity and raised a false alarm on such a
+// design). A buffer that is reset to length zero before Put is poisoned entirely, as
+// before.
 type Pool struct {
 	New  func() any
 	real sync.Pool
@@ -63,18 +69,18 @@ func ident(v any) uintptr {
 	return 0
 }
 
-// region finds the byte buffer owned by a pooled value.
+// region finds the unused capacity of the byte buffer owned by a pooled value.
 //
 //go:norace
 func region(v any) []byte {
 	switch x := v.(type) {
 	case []byte:
-		return x[:cap(x)]
+		return x[len(x):cap(x)]
 	case *[]byte:
 		if x == nil {
 			return nil
 		}
-		return (*x)[:cap(*x)]
+		return (*x)[len(*x):cap(*x)]
 	case *bytes.Buffer:
 		return bufField(reflect.ValueOf(x).Elem())
 	}
@@ -95,7 +101,7 @@ func bufField(st reflect.Value) []byte {
 		return nil
 	}
 	b := *(*[]byte)(unsafe.Pointer(f.UnsafeAddr()))
-	return b[:cap(b)]
+	return b[len(b):cap(b)]
 }
 
 //go:norace
